@@ -330,7 +330,11 @@ class CoMutex final : public vf::Family {
       const int n = vf::Pick(2, 10);
       for (int i = 0; i < n; ++i) {
         c.prog.push_back(vf::Pick(0, 4));
-        c.prog.push_back(vf::Pick(0, 5));
+        // lock form: values 5..7 alias the Try forms (index 3, 4 for Mutex; 2, 3 for SharedMutex after the modulo)
+        {
+          const int f = vf::Pick(0, 8);
+          c.prog.push_back(f < 5 ? f : (f == 5 ? 3 : f == 6 ? 2 : 8));
+        }
         c.prog.push_back(vf::Pick(0, 5));
         c.prog.push_back(vf::Pick(0, 3) == 0 ? 1 : 0);
       }
